@@ -149,6 +149,28 @@ struct Emp<V, true> {
   template <class S, class It> static auto hint(S &s, It h, Val x) -> decltype(s.emplace_hint(h, Mk<E>::make(x))) { return s.emplace_hint(h, Mk<E>::make(x)); }
 };
 
+// emplace whose arguments are references to *members* of an element (no argument has the element type or points to an element):
+// available for the element types that expose key / pay members
+template <class E, class = void>
+struct FieldAlias {
+  static const bool kAvailable = false;
+  template <class V, class It> static long emplace(V &, It, size_t) { return -2; }
+  template <class V> static void emplace_back(V &, size_t) {}
+};
+template <class E>
+struct FieldAlias<E, decltype(void(std::declval<E &>().key), void(std::declval<E &>().pay))> {
+  static const bool kAvailable = true;
+  template <class V, class It> static long emplace(V &v, It pos, size_t src) {
+    auto &e = v[static_cast<typename V::size_type>(src)];
+    auto it = v.emplace(pos, e.key, e.pay);
+    return static_cast<long>(it - v.begin());
+  }
+  template <class V> static void emplace_back(V &v, size_t src) {
+    auto &e = v[static_cast<typename V::size_type>(src)];
+    v.emplace_back(e.key, e.pay);
+  }
+};
+
 inline std::string vals_str(const std::vector<Val> &v, size_t maxn = 24) {
   std::string o = "[";
   for (size_t i = 0; i < v.size() && i < maxn; ++i) {
